@@ -47,7 +47,7 @@ def main():
     if rc != 0:
         print("demo does not compile on the clean tree:\n", out[-2000:])
         return 2
-    clean = [sh("timeout 600 %s/demo_bin" % seed, cwd=seed)[0] for _ in range(3)]
+    clean = [sh("timeout 120 %s/demo_bin" % seed, cwd=seed)[0] for _ in range(3)]
     meta["demo_clean_exit_codes"] = clean
     # with the change
     sh("git apply %s" % patch, cwd=wt)
@@ -56,7 +56,7 @@ def main():
         print("demo does not compile with the change:\n", out[-2000:])
         sh("git checkout -- include test", cwd=wt)
         return 2
-    mutated = [sh("timeout 600 %s/demo_bin" % seed, cwd=seed)[0] for _ in range(5)]
+    mutated = [sh("timeout 120 %s/demo_bin" % seed, cwd=seed)[0] for _ in range(5)]
     meta["demo_mutated_exit_codes"] = mutated
     meta["ran"].append("g++ %s ; ./demo_bin (3x clean tree, 5x with patch)" % flags.replace(wt, "<worktree>"))
     suite = "skipped"
